@@ -49,6 +49,7 @@ Spec == Init /\ [][Next]_vars
 
 Bound == g.steps <= MaxSteps /\ w.now <= MaxTime /\ w.batch.id <= MaxBatch
 View == w
+HuntBound == \A a \in BankAccts, d \in Denoms : w.bank[a][d] <= 100000000
 EmitTrace == TLCGet("level") # EmitLen \/ PrintT(<<"TRACE", ToJson([i \in 1..Len(Trace) |-> [w |-> Trace[i].w, ev |-> Trace[i].ev, obs |-> Trace[i].obs]])>>)
 
 =============================================================================
